@@ -465,7 +465,7 @@ pub fn c05_dijkstra_pred_step_n3_h3() {
 }
 
 // The same step with weights < 2^62.
-// @verif prop=C05 tier=thorough fl=f2 feat=cap4 role=dijkstra-inductive/step-large t=3600 mem=30
+// @verif prop=C05 tier=exp fl=f2 feat=cap4 role=dijkstra-inductive/step-large t=3600 mem=30
 #[cfg_attr(kani, kani::proof)]
 #[cfg_attr(kani, kani::unwind(6))]
 pub fn c05_dijkstra_pred_step_large_n3_h3() {
